@@ -119,6 +119,29 @@ Theorem C12_redirect_handler_response : forall c o code url cause,
 Proof. exact redirect_handler_response. Qed.
 Print Assumptions C12_redirect_handler_response.
 
+(** a redirect handler created by the loader (any configuration source) has a code
+    in 300..399, 302 when unset: valid, never a success status; its answer is
+    that code with the rendered URL as Location.  Codes such as 200, 5, -1, 1000
+    cannot be configured any more (fix: 6c5864d) *)
+Theorem C12_redirect_handler_code_is_3xx : forall c o code to m cause,
+  create_redirect code to = Some m ->
+  m = MRedirect code to /\ 300 <= redirect_status code <= 399 /\
+  valid_code (redirect_status code) = true /\ success_like (redirect_status code) = false /\
+  (redirects_not_success cause -> scenario_redirects_not_success (ScHandled m cause)) /\
+  (forall url, to = Some url ->
+     http_respond c o (ScHandled m cause) =
+       HFinal (redirect_status code) {| h_location := Some url; h_www := None; h_ctype := None |} false).
+Proof. exact created_redirect_code. Qed.
+Print Assumptions C12_redirect_handler_code_is_3xx.
+
+Theorem C12_success_redirect_not_creatable : forall to,
+  create_redirect 200 to = None /\ create_redirect 5 to = None /\ create_redirect (-1) to = None /\
+  create_redirect 1000 to = None /\ create_redirect 299 to = None /\ create_redirect 400 to = None /\
+  create_redirect 300 to = Some (MRedirect 300 to) /\ create_redirect 399 to = Some (MRedirect 399 to) /\
+  create_redirect 0 to = Some (MRedirect 0 to).
+Proof. exact success_redirect_not_creatable. Qed.
+Print Assumptions C12_success_redirect_not_creatable.
+
 (** a failure handled by a www_authenticate handler gets the authentication status ... *)
 Theorem C12_www_authenticate_status : forall c o realm cause,
   (valid_code (http_code (ov_authn c) 401) = true ->
